@@ -243,6 +243,12 @@ func (c *cluster) handleChanges(key watchKey, kvs []KV) {
 		}
 	}
 	for _, kv := range remove {
+		// the key is still registered with a new value, which OnAdd has published above;
+		// listeners remove by key, so removing the old pair would drop the new value.
+		if _, ok := newVals[kv.Key]; ok {
+			continue
+		}
+
 		for _, l := range listeners {
 			l.OnDelete(kv)
 		}
